@@ -7,6 +7,7 @@ import Drv.AmlScalars
 import Acpi.Aml.Term
 import Acpi.Spec.Aml
 import Acpi.Spec.Res
+import Acpi.Spec.AmlWf
 namespace Drv
 open Acpi
 
@@ -200,7 +201,8 @@ def checkAml (case impl : List String) : List Fail :=
            | none => [])
         let sinkF : List Fail :=
           if sinks = "ok" ∨ sinks = "~" then [] else [⟨"prop", "C14", "sink-dependent", sinks⟩]
-        main ++ altF ++ sinkF
+        let wfNote : List Fail := if Spec.Aml.wf env t then [] else [⟨"note", "-", "non-wf-term", ""⟩]
+        wfNote ++ main ++ altF ++ sinkF
       | _ => [⟨"corr", "C06", "parse", "observation"⟩]
     | _, _ => [⟨"corr", "C06,C10,C15", "parse", "term"⟩]
   | [] => [⟨"corr", "C06", "parse", "empty"⟩]
